@@ -239,6 +239,13 @@ Error RACFGBuilder::on_instruction(InstNode* inst, InstControlFlow& cf, RAInstBu
             }
           }
 
+          // BT|BTC|BTR|BTS with a register bit offset: the register form takes the offset modulo the operand
+          // width, the memory form addresses a bit string - the offset would reach outside of the home slot.
+          if (i == 0u && operands.size() >= 2u && operands[1].is_reg() &&
+              (inst_id == Inst::kIdBt || inst_id == Inst::kIdBtc || inst_id == Inst::kIdBtr || inst_id == Inst::kIdBts)) {
+            flags &= ~(RATiedFlags::kUseRM | RATiedFlags::kOutRM);
+          }
+
           uint32_t virt_index = Operand::virt_id_to_index(reg.id());
           if (virt_index < Operand::kVirtIdCount) {
             RAWorkReg* work_reg;
